@@ -20,7 +20,7 @@ func init() {
 
 func (c10) ID() string { return "C10" }
 
-const c10Variants = 8
+const c10Variants = 9
 
 var c10Programs = []string{
 	"a && b\n", "a || b\n", "case x in a) b;; esac\n", "a >>f\n", "a >|f\n", "a <<E\nb\nE\n", "a <<-E\n\tb\nE\n", "a <>f\n", "a <&3\n", "a >&2\n", "((x))\n", "$((1))\n",
@@ -123,8 +123,11 @@ func c10Variant(v int, salt uint64) gosim.ReaderPlan {
 	case 6:
 		// count-based: the n-th ReadRune call fails wherever the reader stands (e.g. the re-read after UnreadRune)
 		return gosim.ReaderPlan{Kind: "scanner", FaultAt: -1, FaultCall: -2, FaultKind: "persistent"}
-	default:
+	case 7:
 		return gosim.ReaderPlan{Kind: "scanner", FaultAt: -1, FaultCall: -2, FaultKind: "transient", Unread: []string{"", "multi"}[salt/8%2]}
+	default:
+		// one failure, after which the source reports end of input
+		return gosim.ReaderPlan{Kind: "scanner", FaultAt: -2, FaultKind: "once-then-eof"}
 	}
 }
 
